@@ -265,6 +265,20 @@ def scramble(v):
                 v[k] = "!edited" if isinstance(w, str) else (-7 if isinstance(w, (int, float)) and not isinstance(w, bool) else None)
 
 
+def export_read(kind, o):
+    """the export operations of an object, run for their side effects only (there must be none): rows / qualifiers for
+    GFF3, with parent qualifiers that share the object's own keys but carry other values"""
+    pq = {k: {"from-parent-1", "from-parent-2"} for k in list(getattr(o, "qualifiers", None) or {}) + [
+        "note", "product", "protein_id", "transcript_id", "transcript_name", "feature_name", "feature_id"]}
+    for fn in (lambda: o.export_qualifiers(pq), lambda: o.export_qualifiers(),
+               lambda: list(o.to_gff(parent="P", parent_qualifiers=pq)), lambda: list(o.to_gff()),
+               lambda: str(o.to_bed12())):
+        try:
+            fn()
+        except Exception:
+            pass  # whether an export succeeds is not this property's question; what it leaves behind is
+
+
 def replay(kind, obj, path, rnd, inherit=None):
     """returns steps = [action, status, contentSame, guidSame, equalToOriginal(, named deviation)]
     inherit: for a collection that is the answer of a query, the aggregate identifiers of the collection it was taken
@@ -324,6 +338,9 @@ def replay(kind, obj, path, rnd, inherit=None):
                 nxt, nf = pickle.dumps(cur), "PICKLE"
             elif a == "Unpickle":
                 nxt, nf = pickle.loads(cur), "OBJ"
+            elif a == "Export":
+                export_read(kind, cur)
+                nxt, nf = cur, "OBJ"
             elif a == "Rebuild":
                 d = shuffle_qualifiers(strip_guids(obj_dict(kind, cur)), rnd)
                 nxt = cls.from_dict(d, par) if kind != "annotation" else cls.from_dict(d)
